@@ -33,6 +33,7 @@ RULE = (
 RULE += (" " + 'Rule lists also name rules by non-canonical UUID spellings (upper case, braces, urn:uuid:, no dashes).')
 RULE += (" A quarter of the streams starts with an action: global template document carrying a product: it is merged over every following detection rule (expectations use the merged documents) and must leave filters as they are.")
 RULE += (" A quarter of the rules has two conditions; a quarter of the streams derives a further rule from the last one through an action: repeat document.")
+RULE += (" Rules have an id and a name, only a name or only an id; rule lists mix ids and names in both orders.")
 ASSUMPTIONS = [
     "vf/ref is the specification of rule and filter conditions; atoms independent",
     "the library's random prefix is drawn from random.choices; the case fixes random.seed",
@@ -264,15 +265,21 @@ def cases(draw):
         det["condition"] = draw(st.sampled_from(_valid(RULE_CONDS, names)))
         if draw(st.integers(0, 3)) == 0:
             det["condition"] = [det["condition"], names[0]]
-        rules.append({"title": f"rule{i}", "id": UUIDS[i] if draw(st.integers(0, 5)) else UUIDS[i].upper(), "name": f"rn{i}", "logsource": draw(st.sampled_from(LOGSOURCES)),
-                      "detection": det})
+        r = {"title": f"rule{i}", "id": UUIDS[i] if draw(st.integers(0, 5)) else UUIDS[i].upper(), "name": f"rn{i}", "logsource": draw(st.sampled_from(LOGSOURCES)),
+             "detection": det}
+        ident = draw(st.integers(0, 5))  # mostly both, sometimes only a name or only an id
+        if ident == 0:
+            del r["id"]
+        elif ident == 1:
+            del r["name"]
+        rules.append(r)
     if draw(st.integers(0, 3)) == 0:  # a rule derived from the last one by an 'action: repeat' document
         k = len(rules)
         last = rules[-1]
         n0 = [n for n in last["detection"] if n != "condition"][0]
         rules.append({"_repeat": {"title": f"rule{k}", "id": UUIDS[k], "name": f"rn{k}", "detection": {n0: {draw(st.sampled_from(fieldpool)): f"r{k}0"}}}})
     if draw(st.integers(0, 5)) == 0:
-        rules.append({"title": "corr", "correlation": {"type": "event_count", "rules": ["rn0"], "timespan": "5m",
+        rules.append({"title": "corr", "correlation": {"type": "event_count", "rules": [rules[0].get("name") or rules[0]["id"]], "timespan": "5m",
                                                        "condition": {"gte": 2}, "generate": True}})
     nf = draw(st.integers(1, 3))
     filters = []
@@ -282,7 +289,7 @@ def cases(draw):
         fd["condition"] = draw(st.sampled_from(_valid(FILTER_CONDS, names)))
         u0 = UUIDS[0]
         spellings = [u0, u0.upper(), "{" + u0 + "}", "urn:uuid:" + u0, u0.replace("-", "")]
-        fd["rules"] = draw(st.sampled_from(["any", [], [UUIDS[0]], ["rn0"], ["rn1", UUIDS[2]], "rn0", ["nomatch"], "ANY",
+        fd["rules"] = draw(st.sampled_from(["any", [], [UUIDS[0]], ["rn0"], ["rn1", UUIDS[2]], [UUIDS[2], "rn1"], [UUIDS[3], "rn0"], [UUIDS[1], "nomatch", "rn0"], "rn0", ["nomatch"], "ANY",
                                             [draw(st.sampled_from(spellings))], draw(st.sampled_from(spellings)), ["rn2", UUIDS[1].upper()]]))
         filters.append({"title": f"flt{j}", "logsource": draw(st.sampled_from(LOGSOURCES)), "filter": fd})
     case = {"rules": rules, "filters": filters, "rseed": draw(st.integers(0, 10 ** 6)),
